@@ -6,7 +6,9 @@ from checks import kvgen as G, c01, c06
 
 LEVEL = "proof"
 MODULE = "IwModel.Props.C03"
-THEOREMS = []
+THEOREMS = ["IwModel.C03." + t for t in (
+    "sblk_roundtrip_over", "sblk_roundtrip", "sblk_enc_bytes", "kvindex_roundtrip", "kv_roundtrip",
+    "dbhdr_roundtrip_over", "dbhdr_roundtrip", "fsmhdr_roundtrip", "fsm_layout_total")]
 MANIFEST = dict(
     level="proof",
     text=("Reopen is modelled as 'parse the closed file': theorems relate the Lean format reader to the contents (codec round trips), and the "
